@@ -28,8 +28,17 @@ func c13Random(r *fw.Rand) c13Model {
 	ns, nr := r.Intn(7), r.Intn(5)
 	var styles []*astisub.Style
 	var desc []string
+	// one list in five names its definitions so that they differ by letter case only (identifiers are exact strings)
+	sid := func(k int) string { return fmt.Sprintf("s%d", k) }
+	rid := func(k int) string { return fmt.Sprintf("r%d", k) }
+	if r.P(1, 5) {
+		sid = func(k int) string {
+			return []string{"speaker", "Speaker", "SPEAKER", "speakeR", "sPeaker", "SpeakeR", "spEAKer"}[k]
+		}
+		rid = func(k int) string { return []string{"bottom", "Bottom", "BOTTOM", "bottoM", "bOttom"}[k] }
+	}
 	for k := 0; k < ns; k++ {
-		st := &astisub.Style{ID: fmt.Sprintf("s%d", k), InlineStyle: &astisub.StyleAttributes{TTMLColor: sp(fmt.Sprintf("#%06x", k)), SSAFontName: fmt.Sprintf("f%d", k)}}
+		st := &astisub.Style{ID: sid(k), InlineStyle: &astisub.StyleAttributes{TTMLColor: sp(fmt.Sprintf("#%06x", k)), SSAFontName: fmt.Sprintf("f%d", k)}}
 		if k > 0 && r.P(3, 5) {
 			st.Style = styles[r.Intn(k)] // parent among earlier styles: a forest, chains up to depth k
 			desc = append(desc, fmt.Sprintf("%s<%s", st.ID, st.Style.ID))
@@ -39,7 +48,7 @@ func c13Random(r *fw.Rand) c13Model {
 	}
 	var regions []*astisub.Region
 	for k := 0; k < nr; k++ {
-		rg := &astisub.Region{ID: fmt.Sprintf("r%d", k), InlineStyle: &astisub.StyleAttributes{TTMLExtent: sp("50% 10%"), WebVTTWidth: "50%"}}
+		rg := &astisub.Region{ID: rid(k), InlineStyle: &astisub.StyleAttributes{TTMLExtent: sp("50% 10%"), WebVTTWidth: "50%"}}
 		if ns > 0 && r.Bool() {
 			rg.Style = styles[r.Intn(ns)]
 			desc = append(desc, fmt.Sprintf("%s>%s", rg.ID, rg.Style.ID))
@@ -576,7 +585,11 @@ func init() {
 							it := textItem(time.Duration(k)*time.Second, time.Duration(k+1)*time.Second, "x")
 							it.Style = st
 							if len(m.sub.Regions) > 0 {
-								it.Region = m.sub.Regions["r0"]
+								for _, rg := range m.sub.Regions {
+									if it.Region == nil || rg.ID < it.Region.ID {
+										it.Region = rg
+									}
+								}
 							}
 							m.sub.Items = append(m.sub.Items, it)
 						}
